@@ -79,6 +79,39 @@ class OpenFile(object):
         pass
 
 
+class RegFile(OpenFile):
+    """A regular file that another process keeps appending to (reading through a log file with fdspawn): always
+    readable; a read at the current end returns b'' -- an end-of-file indication that is not the end of the stream."""
+    kind = 'regfile'
+
+    def __init__(self, kernel):
+        self.k = kernel
+        self.data = bytearray()
+        self.pos = 0
+        self.open = True
+        self.log = self.data
+
+    def readable(self):
+        return True
+
+    def read_now(self, n):
+        avail = len(self.data) - self.pos
+        if avail <= 0:
+            return b''
+        n = self.k.tear(n, avail)
+        d = bytes(self.data[self.pos:self.pos + n])
+        self.pos += len(d)
+        return d
+
+    def write_now(self, data):          # the appending process
+        self.data += data
+        self.k.kick()
+        return len(data)
+
+    def close(self):
+        self.open = False
+
+
 class Pipe(object):
     def __init__(self, kernel, cap):
         self.k = kernel
@@ -527,6 +560,8 @@ class Kernel(object):
     def alloc_fd(self, of):
         # many_fds: the application already holds > 1024 descriptors, so every new one is beyond select()'s FD_SETSIZE
         fd = FD_BASE + (1100 if self.w.scn.get('many_fds') else 0)
+        if self.w.scn.get('many_fds'):
+            self.w.fault('fd_beyond_fd_setsize')
         while fd in self.fds:
             fd += 1
         self.fds[fd] = of
